@@ -184,7 +184,7 @@ func (f *frame) call(instr ssa.Instruction, common *ssa.CallCommon, st *State, r
 		}
 	}
 	if key != "" {
-		if ct, ok := x.eng.CS.ByKey[key]; ok && !(callee != nil && callee == x.root && false) {
+		if ct, ok := x.eng.CS.ByKey[key]; ok && !(ct.Inlined && callee != nil && x.canInline(callee, f)) {
 			return x.applyContract(ct, key, callee, sig, common.IsInvoke(), args, resT, st, reach, instr.Pos())
 		}
 	}
@@ -331,6 +331,13 @@ func (x *Exec) applyContract(ct *Contract, key string, callee *ssa.Function, sig
 			env.vars[names[i]] = a
 		}
 	}
+	for n, v := range x.extraVars {
+		if _, taken := env.vars[n]; !taken {
+			env.vars[n] = v
+		}
+	}
+	spawning := x.spawning
+	x.spawning, x.extraVars = false, nil
 	for _, c := range ct.Requires {
 		t, err := env.evalBool(c.E)
 		if err != nil {
@@ -364,6 +371,10 @@ func (x *Exec) applyContract(ct *Contract, key string, callee *ssa.Function, sig
 				return Val{}, fmt.Errorf("%s:%d: modifies %s: %v", ct.File, ct.Line, ct.ModSrc[i], err)
 			}
 		}
+	}
+	if spawning {
+		// a `go` statement: the spawned function has not finished, nothing of its postcondition is known
+		return Val{Typ: resT}, nil
 	}
 	var res Val
 	if sig.Results().Len() == 0 {
